@@ -407,6 +407,16 @@ def _present(a, t1, t2, tok_sel: int, same_worker: bool, same_server_id: bool): 
     return w, token
 
 
+def _inject_twin(w, sid: bytes, auth) -> None:  # type: ignore[no-untyped-def]
+    """Session ids are only unique per worker (per-process randomness): the other worker may hold a live
+    session of the same principal under the very same id.  Only the server id in the token tells them apart."""
+    import threading
+
+    with _As(auth):
+        pk = sk._StickyMiddleware._principal_key(_Req(w.server_id, None))
+    w.registry._entries[sid] = sk._SessionEntry(state=_State("twin"), expires_at=10**12, principal_key=pk, lock=threading.RLock())
+
+
 def _should_serve(i_open: int, r: int, tok_sel: int, same_worker: bool, closed1: bool, dt: int, ttl: int) -> int:
     """0 = refused; 1 / 2 = served with session 1 / 2."""
     if tok_sel > 1 or not same_worker or tc.real_identity(_IDS[i_open]) != tc.real_identity(_IDS[r]):
@@ -423,11 +433,14 @@ def _cleanup(w, req, resp) -> None:  # type: ignore[no-untyped-def]
     w.mw.process_response(req, resp, None, True)
 
 
-def _middleware_check(i_open: int, r: int, tok_sel: int, same_worker: bool, same_server_id: bool, closed1: bool, drained: bool, dt: int, ttl: int, impl) -> Any:  # type: ignore[no-untyped-def]
+def _middleware_check(i_open: int, r: int, tok_sel: int, same_worker: bool, same_server_id: bool, closed1: bool, drained: bool, dt: int, ttl: int, impl, twin: bool = False) -> Any:  # type: ignore[no-untyped-def]
     """Shared by the harness run (impl = stubbed functions) and the real replay (impl = real ones)."""
     i_open, r, tok_sel = _pick(i_open, 4), _pick(r, 4), _pick(tok_sel, 5)
     a, (s1, t1, sid1), (s2, t2, sid2) = impl.world(i_open, ttl)
     w, token = _present(a, t1, t2, tok_sel, same_worker, same_server_id) if impl.stubbed else impl.present(a, t1, t2, tok_sel, same_worker, same_server_id)
+    if not same_worker and not same_server_id and twin:
+        _inject_twin(w, sid1, _IDS[i_open])
+        _inject_twin(w, sid2, _IDS[i_open])
     if closed1:
         a.registry.close(sid1)
     impl.set_clock(_T0 + dt)
@@ -523,7 +536,7 @@ def _decode(where: int, life: int) -> tuple:
 def _replay_middleware(args: dict) -> str | None:
     sw, ssid, closed1, drained = _decode(args["where"], args["life"])
     with _RealImpl() as impl:
-        got = _middleware_check(args["i_open"], args["r"], args["tok_sel"], sw, ssid, closed1, drained, args["dt"], args["ttl"], impl)
+        got = _middleware_check(args["i_open"], args["r"], args["tok_sel"], sw, ssid, closed1, drained, args["dt"], args["ttl"], impl, args.get("twin", False))
     if got is True:
         return None
     return (got if isinstance(got, str) else "sticky middleware outcome differs from the specification") + f" (opener {_IDS[args['i_open']]!r}, requester {_IDS[args['r']]!r}, args {args!r})"
@@ -531,17 +544,17 @@ def _replay_middleware(args: dict) -> str | None:
 
 _MW_STUBS = ASSUMPTIONS[:5]
 _MW_ENC = [sk._StickyMiddleware.process_request, sk._StickyMiddleware._principal_key, sk._StickyMiddleware._open_session, sk._SessionRegistry.get, sk._SessionRegistry.open, sk._expected_server_id]
-_MW_BOUND = "opener x requester over 4 identities; same worker / another worker with the same server id / another worker; session 1 live, closed, or reaper ran; any request time >= open time, any ttl 0..1e9 s; token: "
+_MW_BOUND = "opener x requester over 4 identities; same worker / another worker with the same server id / another worker (optionally holding a same-principal session under the same session id); session 1 live, closed, or reaper ran; any request time >= open time, any ttl 0..1e9 s; token: "
 
 
 @cond(q=60, t=300, stubs=_MW_STUBS, encoded=_MW_ENC, bound=_MW_BOUND + "session 1's or session 2's genuine token", replay=_replay_middleware, signature=lambda a, c: "C25:middleware:dispatch-decision")
-def dispatch_iff_same_worker_same_identity_live(i_open: int, r: int, tok_sel: int, where: int, life: int, dt: int, ttl: int) -> bool:
+def dispatch_iff_same_worker_same_identity_live(i_open: int, r: int, tok_sel: int, where: int, life: int, dt: int, ttl: int, twin: bool) -> bool:
     """
     pre: 0 <= i_open <= 3 and 0 <= r <= 3 and 0 <= tok_sel <= 1 and 0 <= where <= 2 and 0 <= life <= 2 and dt >= 0 and 0 <= ttl <= 1000000000
     post: _
     """
     sw, ssid, closed1, drained = _decode(where, life)
-    return _middleware_check(i_open, r, tok_sel, sw, ssid, closed1, drained, dt, ttl, _STUBBED) is True
+    return _middleware_check(i_open, r, tok_sel, sw, ssid, closed1, drained, dt, ttl, _STUBBED, twin) is True
 
 
 @cond(q=60, t=300, stubs=_MW_STUBS, encoded=_MW_ENC, bound=_MW_BOUND + "sealed under a foreign key / not a token / absent", replay=_replay_middleware, signature=lambda a, c: "C25:middleware:forged-token")
@@ -554,11 +567,16 @@ def forged_or_absent_token_never_resumes(i_open: int, r: int, tok_sel: int, wher
     return _middleware_check(i_open, r, tok_sel, sw, ssid, closed1, drained, dt, ttl, _STUBBED) is True
 
 
-def _delete_check(i_open: int, r: int, tok_sel: int, where: int, life: int, dt: int, ttl: int, impl) -> Any:  # type: ignore[no-untyped-def]
+def _delete_check(i_open: int, r: int, tok_sel: int, where: int, life: int, dt: int, ttl: int, impl, twin: bool = False) -> Any:  # type: ignore[no-untyped-def]
     i_open, r, tok_sel = _pick(i_open, 4), _pick(r, 4), _pick(tok_sel, 5)
     sw, ssid, closed1, drained = _decode(where, life)
     a, (s1, t1, sid1), (s2, t2, sid2) = impl.world(i_open, ttl)
     w, token = _present(a, t1, t2, tok_sel, sw, ssid) if impl.stubbed else impl.present(a, t1, t2, tok_sel, sw, ssid)
+    twins = []
+    if not sw and not ssid and twin:
+        _inject_twin(w, sid1, _IDS[i_open])
+        _inject_twin(w, sid2, _IDS[i_open])
+        twins = [w.registry._entries[sid1].state, w.registry._entries[sid2].state]
     if closed1:
         a.registry.close(sid1)
     impl.set_clock(_T0 + dt)
@@ -574,7 +592,7 @@ def _delete_check(i_open: int, r: int, tok_sel: int, where: int, life: int, dt: 
         if not (resp.status == HTTPStatus.OK and resp.headers == {} and resp.stream is None and not resp.complete):
             return "DELETE that must be refused is distinguishable from the uniform 200"
         expired = _T0 + dt > _T0 + ttl
-        if not expired and (s1.closed, s2.closed) != before:
+        if not expired and ((s1.closed, s2.closed) != before or any(t.closed for t in twins)):
             return "DELETE that must be refused closed a live session"
         return True
     target, sid = ((s1, sid1), (s2, sid2))[want - 1]
@@ -586,7 +604,7 @@ def _delete_check(i_open: int, r: int, tok_sel: int, where: int, life: int, dt: 
 
 def _replay_delete(args: dict) -> str | None:
     with _RealImpl() as impl:
-        got = _delete_check(args["i_open"], args["r"], args["tok_sel"], args["where"], args["life"], args["dt"], args["ttl"], impl)
+        got = _delete_check(args["i_open"], args["r"], args["tok_sel"], args["where"], args["life"], args["dt"], args["ttl"], impl, args.get("twin", False))
     if got is True:
         return None
     return (got if isinstance(got, str) else "DELETE outcome differs from the specification") + f" (opener {_IDS[args['i_open']]!r}, requester {_IDS[args['r']]!r}, args {args!r})"
@@ -596,12 +614,12 @@ _DEL_ENC = [sk._SessionResource.on_delete, sk._SessionRegistry.get, sk._SessionR
 
 
 @cond(q=60, t=300, stubs=ASSUMPTIONS[:4], encoded=_DEL_ENC, bound=_MW_BOUND + "session 1's or session 2's genuine token", replay=_replay_delete, signature=lambda a, c: "C25:delete:decision")
-def delete_204_iff_live_and_owned_else_uniform_200(i_open: int, r: int, tok_sel: int, where: int, life: int, dt: int, ttl: int) -> bool:
+def delete_204_iff_live_and_owned_else_uniform_200(i_open: int, r: int, tok_sel: int, where: int, life: int, dt: int, ttl: int, twin: bool) -> bool:
     """
     pre: 0 <= i_open <= 3 and 0 <= r <= 3 and 0 <= tok_sel <= 1 and 0 <= where <= 2 and 0 <= life <= 2 and dt >= 0 and 0 <= ttl <= 1000000000
     post: _
     """
-    return _delete_check(i_open, r, tok_sel, where, life, dt, ttl, _STUBBED) is True
+    return _delete_check(i_open, r, tok_sel, where, life, dt, ttl, _STUBBED, twin) is True
 
 
 @cond(q=60, t=300, stubs=ASSUMPTIONS[:4], encoded=_DEL_ENC, bound=_MW_BOUND + "sealed under a foreign key / not a token / absent", replay=_replay_delete, signature=lambda a, c: "C25:delete:forged-token")
